@@ -19,6 +19,7 @@ import (
 	"github.com/gokrazy/rsync/internal/receiver"
 	"github.com/gokrazy/rsync/internal/rsyncos"
 	"github.com/gokrazy/rsync/internal/rsyncwire"
+	"github.com/gokrazy/rsync/internal/sender"
 	"golang.org/x/sys/unix"
 )
 
@@ -90,7 +91,7 @@ func suiteDelete(h *H) {
 	}
 	defer os.RemoveAll(base)
 	caseNo := 0
-	run := func(ioerr int, dry bool, names []string, tree []tEnt) {
+	run := func(ioerr int, dry bool, names []string, tree []tEnt, rules []string) {
 		caseNo++
 		dir := filepath.Join(base, fmt.Sprintf("d%d", caseNo))
 		os.Mkdir(dir, 0o755)
@@ -109,6 +110,11 @@ func suiteDelete(h *H) {
 			Progress: progress.NewPrinter(io.Discard, time.Now),
 			Conn:     &rsyncwire.Conn{Reader: strings.NewReader(""), Writer: io.Discard},
 			IOErrors: int32(ioerr),
+		}
+		if len(rules) > 0 {
+			if excl, err := sender.ParseFilterRules(rules); err == nil {
+				rt.Protect = excl.Matches
+			}
 		}
 		var fl []*receiver.File
 		for _, n := range names {
@@ -166,12 +172,17 @@ func suiteDelete(h *H) {
 		for _, e := range before {
 			want := true
 			if ioerr == 0 && !dry && hasTop {
-				p := e.path
-				for p != "." {
+				// walking down from the root: the first component that is not in the list decides —
+				// protected by an exclude rule: it and everything below stays; otherwise it goes
+				var comps []string
+				for p := e.path; p != "."; p = filepath.Dir(p) {
+					comps = append([]string{p}, comps...)
+				}
+				for _, p := range comps {
 					if !listed[p] {
-						want = false
+						want = excludedBy(rules, p)
+						break
 					}
-					p = filepath.Dir(p)
 				}
 			}
 			if want != after[e.path] {
@@ -204,7 +215,11 @@ func suiteDelete(h *H) {
 		if dry {
 			d = 1
 		}
-		op := fmt.Sprintf("delete %d %d %s %s", ioerr, d, j(sorted), j(tl))
+		var rh []string
+		for _, r := range rules {
+			rh = append(rh, hx([]byte(r)))
+		}
+		op := fmt.Sprintf("delete %d %d %s %s %s", ioerr, d, j(sorted), j(tl), j(rh))
 		impl := outcome + " " + j(removed)
 		h.emit(op, impl, v, len(removed) > 0)
 		h.stat(fmt.Sprintf("delete.removed=%d", min(len(removed), 5)))
@@ -231,7 +246,13 @@ func suiteDelete(h *H) {
 					tree = append(tree, tEnt{string(unhx(p[0])), p[1][0]})
 				}
 			}
-			run(io_, d == 1, names, tree)
+			var rules []string
+			if len(f) > 5 && f[5] != "-" {
+				for _, x := range strings.Split(f[5], ",") {
+					rules = append(rules, string(unhx(x)))
+				}
+			}
+			run(io_, d == 1, names, tree, rules)
 		}
 		return
 	}
@@ -277,7 +298,7 @@ func suiteDelete(h *H) {
 							}
 						}
 					}
-					run(0, false, names, tree)
+					run(0, false, names, tree, nil)
 				}
 			}
 		}
@@ -330,6 +351,17 @@ func suiteDelete(h *H) {
 		if h.rng.Intn(8) == 0 {
 			ioerr = 1
 		}
-		run(ioerr, h.rng.Intn(8) == 0, names, tree)
+		var rules []string
+		if h.rng.Intn(3) == 0 {
+			for k := 1 + h.rng.Intn(2); k > 0; k-- {
+				nm := []string{"a", "b", "c", "d", "e", "a.b", "zz", "0"}[h.rng.Intn(8)]
+				if h.rng.Intn(4) == 0 {
+					rules = append(rules, "+ "+nm)
+				} else {
+					rules = append(rules, "- "+nm)
+				}
+			}
+		}
+		run(ioerr, h.rng.Intn(8) == 0, names, tree, rules)
 	}
 }
